@@ -87,7 +87,16 @@ func (s *sim) drawConfig() {
 	if prof == "crash" {
 		c.Crashes = 1 + t.Choose("ncrash", 5)
 	}
-	if prof == "byz" || prof == "storm" || prof == "forge" {
+	if prof == "fastsync" {
+		c.TargetHeight = int64(t.Range("target.fs", 8, 11))
+		c.LagHeights = int64(t.Range("lag.h", 6, 7))
+		c.Crashes, c.Partitions, c.DropPrecommitPm = 0, 0, 0
+		if c.DropPm > 20 {
+			c.DropPm = 20
+		}
+		c.MaxSim = 90 * time.Second
+	}
+	if prof == "byz" || prof == "storm" || prof == "forge" || prof == "fastsync" {
 		// Byzantine validators need n >= 4 (f < n/3)
 		c.N = []int{4, 5, 6, 7}[t.Weighted("n.byz", 5, 2, 1, 3)]
 		c.F = 1
@@ -115,6 +124,12 @@ func (s *sim) drawConfig() {
 		case "forge":
 			b.forge = rc.Property
 			b.equivocate = t.Permille("forge.equiv", 200)
+		case "fastsync":
+			// the Byzantine validator takes part in consensus honestly (the others need its votes while
+			// the laggard is down) and lies only as a fast-sync server
+			b.fastsync = true
+			c.N = []int{4, 5}[t.Choose("n.fs", 2)]
+			c.F = 1
 		}
 	}
 	if c.N > 1 && t.Permille("skew", 300) {
@@ -142,6 +157,11 @@ func (s *sim) scheduleWorkloadAndFaults() {
 			kind = 1
 		}
 		s.schedule(time.Duration(t.Range("tx.at", 0, horizon))*time.Millisecond, "tx", func() { s.submitTx(kind) })
+	}
+	if s.rc.Property == "C07" && t.Permille("verchange", 250) {
+		// late in the run, so that several heights are finalized before the chain has to stop
+		at := time.Duration(horizon/2+t.Range("verchange.at", 0, horizon/2)) * time.Millisecond
+		s.schedule(at, "tx", func() { s.submitTx(2) })
 	}
 	for i := 0; i < s.cfg.Crashes; i++ {
 		at := time.Duration(t.Range("crash.at", 0, horizon)) * time.Millisecond
@@ -304,7 +324,21 @@ func (e engine) Run(rc *kit.RunCtx) {
 					s.schedule(100*time.Millisecond, "storm", tick)
 				}
 			}
+			var laggard *node
+			if s.byz.fastsync {
+				var correct []*node
+				for _, n := range s.nodes {
+					if !n.byz {
+						correct = append(correct, n)
+					}
+				}
+				laggard = correct[s.tape.Choose("laggard", len(correct))]
+				s.scheduleLaggard(laggard)
+			}
 			for _, n := range s.nodes {
+				if n == laggard {
+					continue // boots later, far behind (fastsync.go)
+				}
 				dir := filepath.Join(rc.Scratch, fmt.Sprintf("n%d-i1-wal", n.idx))
 				os.MkdirAll(dir, 0700)
 				inc := s.newIncarnation(n, newSimDB(), dir)
